@@ -18,7 +18,7 @@ from _griffe.agents.visitor import Visitor, visit
 from _griffe.enumerations import ParameterKind as PK
 from _griffe.extensions.base import Extensions
 from _griffe.models import Function, Parameter, Parameters
-from vlib.ob import TIER, HarnessDefect, cover, fail, obligation, tiered
+from vlib.ob import TIER, HarnessDefect, cover, fail, obligation, tiered, prop
 from vlib.stubs import plain_error_messages, silence_logging
 
 STUBS = silence_logging() + plain_error_messages()
@@ -120,7 +120,7 @@ def _sig_cases():
 @obligation(
     pid="C02", name="signature", timeout=tiered(280, 2400), shards=_sig_cases,
     pre=lambda npo, na, nd, nk, kmask, amask, vararg, kwarg, is_async, has_ret, in_class, m0, m1, m2, m3, m4, m5, m6, q0, q1, q2: True,
-    drives=[get_parameters, Visitor.handle_function, Parameter.required.fget],
+    drives=[get_parameters, Visitor.handle_function, prop(Parameter, "required")],
     bounds={"positional-only": f"0..{M}", "positional-or-keyword": f"0..{MA}", "defaults": "0..(posonly+args), spanning the / boundary", "keyword-only": f"0..{M} with every kw_defaults None-mask",
             "*args/**kwargs": "present or not", "annotations": "none / a mixed subset / all parameters annotated", "return annotation": "present iff some annotation", "context": "module-level def / async method in a class (thorough: more mixes)"},
     value_symbolic=["the identity of every default expression (m0..m6 for positional defaults, q0..q2 for keyword-only defaults: unconstrained ints carried by the ast.Constant nodes) - which default lands on which parameter is decided for all values at once"],
@@ -322,7 +322,7 @@ def container(op1: int, op2: int, k1: str, k2: str, i1: int, i2: int, n0: str, n
 
 
 # ================================================================================ overloads / properties
-DK = ["plain", "overload", "property", "setter", "deleter", "overload+staticmethod", "deco+overload"]
+DK = ["plain", "overload", "property", "setter", "deleter", "overload+staticmethod", "deco+overload", "dotted+setter", "dotted+deleter"]
 
 
 def _deco(kind, name, line=1):
@@ -332,6 +332,8 @@ def _deco(kind, name, line=1):
         return _deco("overload", name, line) + [_loc(ast.Name(id="staticmethod", ctx=ast.Load()), line)]
     if kind == "deco+overload":  # another decorator stacked above @typing.overload
         return [_loc(ast.Name(id="some_decorator", ctx=ast.Load()), line)] + _deco("overload", name, line)
+    if kind in ("dotted+setter", "dotted+deleter"):  # another (dotted, hence resolvable-looking) decorator stacked ABOVE @<name>.setter / @<name>.deleter
+        return [_loc(ast.Attribute(value=_loc(ast.Name(id="dec", ctx=ast.Load()), line), attr="orate", ctx=ast.Load()), line)] + _deco(kind.split("+")[1], name, line)
     if kind == "overload":
         return [_loc(ast.Attribute(value=_loc(ast.Name(id="typing", ctx=ast.Load()), line), attr="overload", ctx=ast.Load()), line)]
     if kind == "property":
@@ -342,11 +344,11 @@ def _deco(kind, name, line=1):
 @obligation(
     pid="C02", name="overloads_properties", timeout=tiered(250, 1200),
     pre=lambda d1, d2, d3, n1, n2, n3, t2, t3, in_class: all(len(n) == 1 and n in "ab" for n in (n1, n2, n3, t2, t3)),
-    shards=lambda: [(f"decorators={a},{b},{c}", None, [dict(d1=a, d2=b, d3=c, in_class=ic) for ic in (False, True)]) for a in DK[:3] for b in DK for c in DK],
+    shards=lambda: [(f"decorators={a},{b},{c}", None, [dict(d1=a, d2=b, d3=c, in_class=ic) for ic in (False, True)]) for a in DK[:3] for b in tiered(DK[:8], DK) for c in tiered(DK[:8], DK)],
     drives=[Visitor.handle_function, Visitor.get_base_property, Visitor.decorators_to_labels],
-    bounds={"definitions": 3, "decorator of each": DK, "names": "1 char over 'ab' (definition names and the property named by .setter/.deleter)", "context": "module or class body"},
+    bounds={"definitions": 3, "decorator of each": tiered(DK[:8], DK), "names": "1 char over 'ab' (definition names and the property named by .setter/.deleter)", "context": "module or class body"},
     value_symbolic=["names of the three definitions", "property names referred to by setter/deleter decorators"], selectors=["decorator kind of each definition, module-or-class (driver-bound)"],
-    stubs=STUBS + ["hand-built ast"], must_cover=["overload-attached", "setter-attached", "deleter-attached"],
+    stubs=STUBS + ["hand-built ast"], must_cover=["overload-attached", "setter-attached", "deleter-attached", "accessor-below-another-decorator"],
     grid=lambda seed: [dict(d1="overload", d2="overload", d3="plain", n1="a", n2="a", n3="a", t2="a", t3="a", in_class=True), dict(d1="property", d2="setter", d3="deleter", n1="a", n2="a", n3="a", t2="a", t3="a", in_class=True)],
 )
 def overloads_properties(d1: str, d2: str, d3: str, n1: str, n2: str, n3: str, t2: str, t3: str, in_class: bool) -> bool:
@@ -371,9 +373,12 @@ def overloads_properties(d1: str, d2: str, d3: str, n1: str, n2: str, n3: str, t
             pending.setdefault(nm, []).append(line)
         elif dk == "property":
             members[nm] = dict(kind="attribute", line=line, labels={"property"}, setter=None, deleter=None)
-        elif dk in ("setter", "deleter") and tgt == nm and nm in members and members[nm]["kind"] == "attribute" and "property" in members[nm]["labels"]:
-            members[nm][dk] = line
-            members[nm]["labels"] = members[nm]["labels"] | {"writable" if dk == "setter" else "deletable"}
+        elif dk.split("+")[-1] in ("setter", "deleter") and tgt == nm and nm in members and members[nm]["kind"] == "attribute" and "property" in members[nm]["labels"]:
+            acc = dk.split("+")[-1]
+            members[nm][acc] = line
+            members[nm]["labels"] = members[nm]["labels"] | {"writable" if acc == "setter" else "deletable"}
+            if "+" in dk:
+                cover("accessor-below-another-decorator")
         else:
             # plain function (a .setter/.deleter decorator that names no existing property of that name is an ordinary decorator)
             members[nm] = dict(kind="function", line=line, overloads=pending.pop(nm, None))
